@@ -28,7 +28,7 @@ CLAIMED = {
   technique="static analysis: path exploration with markers and outcome facts, integer expression folding, site rules",
   ref="§4 C03"),
  "C06": dict(
-  text="Structural clauses of metadata determinism and invariants: nothing nondeterministic (clock outside the excluded DeletedAt stamps, randomness, goroutines, select, order-sensitive map iteration) is reachable from storeFSM.Apply within services/meta; copy-on-write apply discipline on every path (only a clone is mutated and installed, never after a failed call, nothing mutated or rejected after installation; frozen who-may-store table); ID counters only grow; Apply's switch, the command-type registry and the validator table agree; the time predicates of shard-group selection, clipping, truncation and expiry equal their specification on every weak ordering of their operands (exhaustive truth tables); the owner round-robin advances one node per replica; the snapshot codec agrees with itself (every field transfer of marshal/unmarshal in services/meta has matching field and getter names, 52 transfers).",
+  text="Structural clauses of metadata determinism and invariants: nothing nondeterministic (clock outside the excluded DeletedAt stamps, randomness, goroutines, select, order-sensitive map iteration) is reachable from storeFSM.Apply within services/meta; copy-on-write apply discipline on every path (only a clone is mutated and installed, never after a failed call, nothing mutated or rejected after installation; frozen who-may-store table); ID counters only grow; Apply's switch, the command-type registry and the validator table agree; the time predicates of shard-group selection, clipping, truncation and expiry equal their specification on every weak ordering of their operands (exhaustive truth tables); the owner round-robin advances one node per replica; the snapshot codec agrees with itself (every field transfer of marshal/unmarshal in services/meta has matching field and getter names, 52 transfers); clone completeness (shared with C07); the membership scan in front of adding a requested shard owner is exhaustive; a group is marked deleted exactly when the shard removed was its last (length before the removal against 1 or after it against 0).",
   note="Does not decide disjointness/ID uniqueness after arbitrary command sequences as arithmetic facts, or evenness of spread beyond the round-robin stride. Trusts hashicorp/raft to deliver the same log everywhere.",
   technique="static analysis: call-graph closure lint, outcome dataflow + marked path exploration, exhaustive evaluation of compiled comparison predicates over all weak orderings",
   ref="§4 C06"),
@@ -48,7 +48,7 @@ CLAIMED = {
   technique="static analysis: field-dependency closure, exhaustive predicate truth tables, loop-iteration path counting, marked path exploration",
   ref="§4 C08"),
  "C17": dict(
-  text="Structural clauses of retention enforcement: DeleteShard only on a hit in a map whose every store derives (through the range statements) from DeletedShardGroups() or from ExpiredShardGroups(now) after DeleteShardGroup returned nil; both listings consulted for every policy on every pass; the condition under which a group is selected as expired/deleted (computed as a path condition, independent of code arrangement) equals its specification on all orderings and stays within time.Time comparisons; frozen table of DeleteShard call sites; every pass prunes and no error aborts a pass; write-time cut-off and never-drop-inside-retention shared with C08.",
+  text="Structural clauses of retention enforcement: DeleteShard only on a hit in a map whose every store derives (through the range statements) from DeletedShardGroups() or from ExpiredShardGroups(now) after DeleteShardGroup returned nil; both listings consulted for every policy on every pass; the condition under which a group is selected as expired/deleted (computed as a path condition, independent of code arrangement) equals its specification on all orderings and stays within time.Time comparisons; frozen table of DeleteShard call sites; every pass prunes and no error aborts a pass; write-time cut-off and never-drop-inside-retention shared with C08. A group is marked deleted exactly when the shard removed from it was its last one (shared with C06).",
   note="Does not decide liveness of the ticker ('eventually') or clock behaviour.",
   technique="static analysis: map-store provenance through range statements, outcome facts, path-condition compilation + exhaustive ordering evaluation, who-may-call table",
   ref="§4 C17"),
@@ -58,7 +58,7 @@ CLAIMED = {
   technique="static analysis: marked path exploration with outcome/branch facts, registry/case agreement, type rules on the cache entry",
   ref="§4 C16"),
  "C10": dict(
-  text="Structural clauses of delete correctness: inside a delete, tombstones are committed on every overlapping file (the error of the parallel apply is checked) before the cache range is removed and before the WAL delete entry is written, and the index is touched only after the file walk and the cache walk that cross out surviving series; level, series-file and TSI compactions are disabled before the first deleteSeriesRange on every path and re-enabled by a deferred call, and enableLevelCompactions restarts compactions only when no delete still holds them; WAL replay handles every WALEntry implementation; the inclusive range-overlap predicates equal their specification on every ordering of their operands; lock pairing inside the delete's closures; FileStore.Apply reports an error if any file's function failed; the reconciliation pass examines every file so a series with points left in a non-overlapping file stays listed; a delete covers every container of not-yet-filed points (Cache.store and the in-flight Cache.snapshot) or excludes cache snapshots while it runs; a tag value is listed only for a series that still exists (found that a TSI index kept listing the value of a dropped series, fixed in 185e5ef).",
+  text="Structural clauses of delete correctness: inside a delete, tombstones are committed on every overlapping file (the error of the parallel apply is checked) before the cache range is removed and before the WAL delete entry is written, and the index is touched only after the file walk and the cache walk that cross out surviving series; level, series-file and TSI compactions are disabled before the first deleteSeriesRange on every path and re-enabled by a deferred call, and enableLevelCompactions restarts compactions only when no delete still holds them; WAL replay handles every WALEntry implementation; the inclusive range-overlap predicates equal their specification on every ordering of their operands; lock pairing inside the delete's closures; FileStore.Apply reports an error if any file's function failed; the reconciliation pass examines every file so a series with points left in a non-overlapping file stays listed; a delete covers every container of not-yet-filed points (Cache.store and the in-flight Cache.snapshot) or excludes cache snapshots while it runs; a tag value is listed only for a series that still exists (found that a TSI index kept listing the value of a dropped series, fixed in 185e5ef); a cache entry's values are indexed only after Deduplicate sorted them.",
   note="Does not decide exactness of Values.Exclude index arithmetic or the tombstone file format. One known finding (a delete overlapping an in-flight cache snapshot resurrects the deleted points) is listed in known_findings.json with a demonstration.",
   technique="static analysis: outcome/marker path exploration over go/cfg, registry agreement of the WAL entry family, exhaustive predicate evaluation over weak orderings, lock balance exploration",
   ref="§9 C10"),
